@@ -216,6 +216,8 @@ pub enum HintMode {
     Exact,
     Fixed(usize),
     Short,
+    /// a little less than the truth: remaining - k
+    Minus(usize),
 }
 impl Feed {
     fn next(&mut self) -> Result<Tok, SimErr> {
@@ -285,6 +287,7 @@ impl<'de, 'a> SeqAccess<'de> for Acc<'a> {
             HintMode::Exact => Some(f.remaining_in_seq()),
             HintMode::Fixed(h) => Some(h),
             HintMode::Short => Some(f.remaining_in_seq() / 2),
+            HintMode::Minus(k) => Some(f.remaining_in_seq().saturating_sub(k)),
         }
     }
 }
@@ -414,6 +417,9 @@ fn hint_of(s: &Step) -> HintMode {
         -3 => HintMode::Short,
         -4 => HintMode::Fixed(usize::MAX),
         -5 => HintMode::Fixed(1 << 40),
+        -6 => HintMode::Minus(1),
+        -7 => HintMode::Minus(2),
+        -8 => HintMode::Minus(3),
         h => HintMode::Fixed(h.max(0) as usize),
     }
 }
@@ -440,6 +446,7 @@ fn gen_words(rng: &mut Prng, thorough: bool) -> Vec<u32> {
         3 => 3,
         4 if thorough => *rng.pick(&[2000u64, 3000, 262_143, 262_144, 262_145, 262_146, 300_001]),
         5 => rng.range(60, 140),
+        6 if rng.chance(1, 3) => rng.range(1026, 2600),
         _ => rng.range(1, 40),
     } as usize;
     let mut v = rng.digits32(len, true);
@@ -459,6 +466,10 @@ fn gen_words(rng: &mut Prng, thorough: bool) -> Vec<u32> {
 }
 
 fn gen_hint(rng: &mut Prng) -> i128 {
+    if rng.chance(1, 5) {
+        // lying hints near the truth and odd / even values around internal block sizes
+        return *rng.pick(&[-6i128, -7, -8, 1, 2, 3, 7, 255, 257, 1023, 1024, 1025, 1027, 2049, 4097, 65_537, 262_143, 262_145]);
+    }
     match rng.below(8) {
         0 => -1,
         1 => 0,
@@ -519,7 +530,7 @@ pub fn gen(rng: &mut Prng, plan: &mut Plan) {
                     }
                     _ => {}
                 }
-                let mut s = Step::new("de_u").l("d", d.clone()).i("hint", gen_hint(rng)).i("deliver", rng.below(4) as i128).i("human", rng.below(2) as i128);
+                let mut s = Step::new("de_u").l("d", d.clone()).i("hint", gen_hint(rng)).i("deliver", rng.below(4) as i128).i("human", rng.below(2) as i128).i("inplace", rng.chance(1, 4) as i128);
                 if rng.chance(1, 8) {
                     s = s.i("wide", 1);
                 }
@@ -542,10 +553,10 @@ pub fn gen(rng: &mut Prng, plan: &mut Plan) {
                             *x = 0;
                         }
                     }
-                    3 => sign = *rng.pick(&[2i128, -2, 127, -128, 3, 64]),
+                    3 => sign = *rng.pick(&[2i128, -2, 127, -128, 3, 64, 255, 256, -129, u64::MAX as i128, u64::MAX as i128 - 1, 1 << 63, i64::MIN as i128, i64::MAX as i128, u32::MAX as i128, 1 << 32]),
                     _ => {}
                 }
-                let mut s = Step::new("de_i").i("sign", sign).l("d", d.clone()).i("hint", gen_hint(rng)).i("deliver", rng.below(4) as i128).i("human", rng.below(2) as i128);
+                let mut s = Step::new("de_i").i("sign", sign).i("sk", rng.below(3) as i128).l("d", d.clone()).i("hint", gen_hint(rng)).i("deliver", rng.below(4) as i128).i("human", rng.below(2) as i128).i("inplace", rng.chance(1, 4) as i128);
                 if rng.chance(1, 10) {
                     s = s.i("nofield", 1);
                 }
@@ -755,8 +766,10 @@ pub fn exec(plan: &Plan) -> RunResult {
                 simalloc::track_max(true);
                 let deliver = s.int("deliver") as u8;
                 let human = s.int("human") != 0;
+                let in_place = s.int("inplace") != 0;
                 let out = catch(|| {
-                    let (r, f) = de_tokens_with::<BigUint>(toks, hint, fail, deliver, human, None);
+                    let place = if in_place { Some(BigUint::new(vec![0xdead_beef; 21])) } else { None };
+                    let (r, f) = de_tokens_with::<BigUint>(toks, hint, fail, deliver, human, place);
                     (r.map(|x| (denote_u(&x), noncanonical_u(&x))), f.fired, f.pos)
                 });
                 let maxreq = simalloc::max_request();
@@ -821,10 +834,19 @@ pub fn exec(plan: &Plan) -> RunResult {
                 let nofield = s.int("nofield") != 0;
                 let fail = if s.has("fail") { Some(s.us("fail")) } else { None };
                 let mut toks = vec![Tok::Tuple(2)];
-                if (-128..=127).contains(&sign) {
-                    toks.push(Tok::I8(sign as i8));
-                } else {
-                    toks.push(Tok::I64(sign as i64));
+                // the sign may arrive in any integer width the format likes
+                match s.int("sk") {
+                    1 if sign >= 0 => toks.push(Tok::U64(sign as u64)),
+                    2 if sign >= i64::MIN as i128 && sign <= i64::MAX as i128 => toks.push(Tok::I64(sign as i64)),
+                    _ => {
+                        if (-128..=127).contains(&sign) {
+                            toks.push(Tok::I8(sign as i8));
+                        } else if sign > i64::MAX as i128 {
+                            toks.push(Tok::U64(sign as u64));
+                        } else {
+                            toks.push(Tok::I64(sign as i64));
+                        }
+                    }
                 }
                 if !nofield {
                     toks.push(Tok::Seq(Some(d.len())));
@@ -837,8 +859,10 @@ pub fn exec(plan: &Plan) -> RunResult {
                 let ntoks = toks.len();
                 let deliver = s.int("deliver") as u8;
                 let human = s.int("human") != 0;
+                let in_place = s.int("inplace") != 0;
                 let out = catch(|| {
-                    let (r, f) = de_tokens_with::<BigInt>(toks, hint, fail, deliver, human, None);
+                    let place = if in_place { Some(BigInt::new(Sign::Minus, vec![0xdead_beef; 5])) } else { None };
+                    let (r, f) = de_tokens_with::<BigInt>(toks, hint, fail, deliver, human, place);
                     (r.map(|x| (denote_i(&x), noncanonical_i(&x))), f.fired, f.pos)
                 });
                 let (r, fired, pos) = match out {
